@@ -579,6 +579,52 @@ func runPartitionShape(c *Ctx, cp *ssa.Function, ps *partShape, b *binder) {
 		}
 	}
 	c.Check(okPair && nPair > 0, "PART", fname, "aligned pairs point into the journal's own list", p.pos(cp.Pos()), "pair.existing = &stopTimes[i]", "aligned entries are copies, not the journal's own entries: in-place updates are lost")
+	// alignment stops at the first disagreement: in the loop that builds the pairs, the outcome "the entry's stop id and
+	// the update's stop id differ" leaves the loop (a `continue` there would pair later entries with earlier updates)
+	okStop, nCmp := true, 0
+	for _, fs := range collectFieldStores(c.regionOf(cp), typeName(ps.pairType)) {
+		if fs.field != ps.existing {
+			continue
+		}
+		var loop *Loop
+		for _, l := range naturalLoops(fs.fn) {
+			if l.Blocks[fs.store.Block()] && (loop == nil || len(l.Blocks) < len(loop.Blocks)) {
+				loop = l
+			}
+		}
+		if loop == nil {
+			continue
+		}
+		for blk := range loop.Blocks {
+			iff, ok := blk.Instrs[len(blk.Instrs)-1].(*ssa.If)
+			if !ok {
+				continue
+			}
+			cond, val := normalizeCond(iff.Cond, true)
+			bo, ok := cond.(*ssa.BinOp)
+			if !ok || (bo.Op != token.EQL && bo.Op != token.NEQ) {
+				continue
+			}
+			if bt, isB := bo.X.Type().Underlying().(*types.Basic); !isB || bt.Info()&types.IsString == 0 {
+				continue
+			}
+			l, r := b.bind(bo.X), b.bind(bo.Y)
+			isIDs := (strings.Contains(l, "StopID") || strings.Contains(r, "StopID")) && (strings.Contains(l+r, "StopTimeUpdate") || strings.Contains(l+r, "param:<[]gtfs.StopTimeUpdate>"))
+			if !isIDs {
+				continue
+			}
+			nCmp++
+			// successor taken when the ids differ
+			differIdx := 1
+			if (bo.Op == token.NEQ) == val {
+				differIdx = 0
+			}
+			if loop.Blocks[blk.Succs[differIdx]] {
+				okStop = false
+			}
+		}
+	}
+	c.Check(okStop && nCmp > 0, "PART", fname, "alignment stops at the first stop that differs", p.pos(cp.Pos()), "in the pairing loop the outcome `stop ids differ` leaves the loop", "the pairing loop goes on after a stop that differs: later entries are paired with updates they do not belong to, stale entries survive and updated stops are lost")
 }
 
 func instrBlockOf(v ssa.Value) *ssa.BasicBlock {
